@@ -95,13 +95,18 @@ func (alloc *BitmapAllocator) setupPoolBitmaps() *kernel.Error {
 			return true
 		}
 
-		alloc.poolsHdr.Len++
-		alloc.poolsHdr.Cap++
-
 		// Reported addresses may not be page-aligned; round up to get
 		// the start frame and round down to get the end frame
 		regionStartFrame := mm.Frame(((uintptr(region.PhysAddress) + pageSizeMinus1) & ^pageSizeMinus1) >> mm.PageShift)
 		regionEndFrame := mm.Frame((uintptr(region.PhysAddress+region.Length) & ^pageSizeMinus1)>>mm.PageShift) - 1
+
+		// Ignore regions that do not contain a single whole page
+		if regionEndFrame+1 <= regionStartFrame {
+			return true
+		}
+
+		alloc.poolsHdr.Len++
+		alloc.poolsHdr.Cap++
 		pageCount := uint32(regionEndFrame - regionStartFrame + 1)
 		alloc.totalPages += pageCount
 
@@ -145,6 +150,10 @@ func (alloc *BitmapAllocator) setupPoolBitmaps() *kernel.Error {
 
 		regionStartFrame := mm.Frame(((uintptr(region.PhysAddress) + pageSizeMinus1) & ^pageSizeMinus1) >> mm.PageShift)
 		regionEndFrame := mm.Frame((uintptr(region.PhysAddress+region.Length) & ^pageSizeMinus1)>>mm.PageShift) - 1
+		if regionEndFrame+1 <= regionStartFrame {
+			return true
+		}
+
 		bitmapBytes := ((uintptr(regionEndFrame-regionStartFrame+1) + 63) &^ 63) >> 3
 
 		alloc.pools[poolIndex].startFrame = regionStartFrame
